@@ -8,6 +8,13 @@ interpreters under several PYTHONHASHSEED values):
             some trees with a Literal discriminator field redefined by the subclasses), one or two instances per class,
             and per tree four CONFIGURATIONS: {automatic, union strategy} x {forbid_extra_keys off, on}, each with random
             detailed_validation / omit_if_default / `overrides` (rename, omit_if_default) / tag name / tag generator;
+            Further flavours: STAGED trees (the strategy is applied while only a prefix of the classes exists, the rest -
+            new leaves, former leaves that become inner nodes, new inner nodes - is defined, then the strategy is applied to a
+            fresh converter, to a copy of the first one, to the first one again, and twice to the same converter; all
+            round trips after every application; the model is fed the tree as it is at application time and, for a
+            repeated application, the trees the earlier applications saw - op `SUBCLSN`), and trees with CLASS-TYPED
+            fields (a field of a tree class typed as another class of the tree, holding instances of its descendants;
+            implementation-side oracle only: the per-class hooks are abstract in the model);
   workers : one subprocess per PYTHONHASHSEED; each realises the trees as REAL subclasses, and per configuration — on a
             fresh Converter — applies `include_subclasses(root, conv, union_strategy=…, overrides=…)` and evaluates
             `conv.structure(conv.unstructure(x, unstructure_as=K), K)` for every class K and every instance x of K or of
